@@ -53,6 +53,9 @@ D(by, rh, dir, n, pt) == [t |-> "D", by |-> by, eph |-> "-", key |-> "-", sig |-
 BAD(n) == [t |-> "BAD", by |-> "M", eph |-> "-", key |-> "-", sig |-> "-", ref |-> None, dir |-> "-", n |-> n, pt |-> 0]
 
 NoncePost == 16
+\* the signature key k made as RESPONDER (RespHello: over the transcript up to the InitHello) presented where
+\* an InitDone signature (over the transcript up to the RespHello) is expected: made by k, but not a proof
+XSig(k) == IF k = "A" THEN "xA" ELSE IF k = "B" THEN "xB" ELSE "xM"
 
 InitState(s) == [hs |-> 0,
                  ih |-> IF Role[s] = "init" THEN IH(s, EphOf[s], KeyOf[s], KeyOf[s]) ELSE None,
@@ -120,7 +123,7 @@ ReadHandshake(s, v, m) ==
         ELSE IF m.t = "RH" /\ m.ref = v.ih THEN Err([v EXCEPT !.dead = TRUE])
         ELSE Err(v)
     ELSE IF Role[s] = "resp" /\ v.hs = 1 /\ m.n = 2 THEN
-        IF m.t = "ID" /\ m.ref = v.rh /\ (m.sig = v.rk \/ "idsig" \in Weak)
+        IF m.t = "ID" /\ m.ref = v.rh /\ (m.sig = v.rk \/ "idsig" \in Weak \/ ("idcb" \in Weak /\ m.sig = XSig(v.rk)))
         THEN LET v2 == [v EXCEPT !.hs = 3, !.idm = m, !.nout = NoncePost]
              IN R3(v2, "hs", HsMsg(s, v2), 0)
         ELSE Err(v)
@@ -209,6 +212,11 @@ Forgeable ==
   \cup {RH("M", AEph, AKey, AKey, ih) : ih \in SeenIH}                            \* answer as oneself
   \cup {RH("M", AEph, k, "none", ih) : ih \in SeenIH, k \in HonestKeys}           \* claim a victim's key
   \cup {ID("M", sg, rh) : sg \in {AKey, "none"}, rh \in {x \in SeenRH : Owns(x)}}
+  \* signature reflection: an honest responder's RespHello signature, read by the attacker because it owns the
+  \* initiator ephemeral, sealed into an InitDone for a (possibly different) responder that answered the SAME InitHello
+  \cup {ID("M", XSig(p[2].key), p[1]) : p \in {q \in SeenRH \X SeenRH :
+            /\ q[1].ref.eph = AEph /\ q[2].ref = q[1].ref
+            /\ q[2].by \in Sess /\ q[2].sig = q[2].key}}
   \cup {RD("M", rh) : rh \in {x \in SeenRH : Owns(x)}}
   \cup {D("M", rh, d, n, 90 + (n - NoncePost) + (IF d = "i2r" THEN 0 ELSE 2)) : rh \in {x \in SeenRH : Owns(x)}, d \in {"i2r", "r2i"}, n \in {NoncePost, NoncePost + 1}}
   \cup {BAD(n) : n \in {0, 1, 2, 3, NoncePost}}
@@ -225,6 +233,15 @@ Next == \/ \E s \in Sess : Hs(s)
         \/ \E s \in Sess : Send(s)
         \/ \E m \in Forgeable : Forge(m)
 Spec == Init /\ [][Next]_vars
+
+\* the reflection scenario on its own (deep in the full attacker model): initiators only emit their InitHello (the
+\* attacker needs one to splice a signed identity triple from), the attacker builds InitHellos around its own
+\* ephemeral and InitDones, and everything is delivered to the responders in every order
+ReflectForge == {m \in Forgeable : (m.t = "IH" /\ m.eph = AEph /\ m.sig = m.key) \/ m.t = "ID"}
+ReflectNext == \/ \E s \in Sess : Role[s] = "init" /\ st[s].hs = 0 /\ Hs(s)
+               \/ \E s \in Sess, m \in net : Role[s] = "resp" /\ Deliver(s, m)
+               \/ \E m \in ReflectForge : Forge(m)
+ReflectSpec == Init /\ [][ReflectNext]_vars
 
 -----------------------------------------------------------------------------
 (* Properties.  C03 *)
